@@ -7,7 +7,7 @@ finite input gives finite outputs.
       object byte-identical afterwards.
 (ii)  containers x dtypes x shapes: result == result for the float64 (2,N) array.
 (iii) finiteness of every density/coherence/transfer quantity (and error bars where
-      coh>0) for all x in {-2,0,1}^6+suffix x partners x scales {1e-150,1,1e150}.
+      coh>0) for all x in {-2,0,1}^6+suffix x partners x scales {1e-150,1,1e150,1e-157}.
 """
 import itertools
 
@@ -23,10 +23,10 @@ META = {
              "auto|cross x full|single-bin; non-trivial: (i)/(ii) every case (the clean reference result is non-zero), (iii) records that are not "
              "identically zero"),
     "exhaustive": True,
-    "bounds": {"quick": "N=8; kinds NaN/+Inf/-Inf/mixed; containers: C float64 ndarray, float32, Fortran-ordered 2xN (also read-only), C- and Fortran-ordered Nx2 (also read-only), strided view, read-only array, list of lists, list of arrays; backends numba and numpy; dtypes f8,f4,i8,i4,bool; scales 1e-150,1,1e150",
+    "bounds": {"quick": "N=8; kinds NaN/+Inf/-Inf/mixed; containers: C float64 ndarray, float32, Fortran-ordered 2xN (also read-only), C- and Fortran-ordered Nx2 (also read-only), strided view, read-only array, list of lists, list of arrays; backends numba and numpy; dtypes f8,f4,i8,i4,bool; scales 1e-150,1,1e150,1e-157 (subnormal mean squares)",
                "thorough": "(iii) over {-2,0,1}^8"},
     "assumptions": ["cf_db at cf=0 is -inf by definition of a decibel and is not demanded to be finite",
-                    "magnitude alphabet {1e-150,1,1e150}: the spectral densities themselves are representable in float64"],
+                    "magnitude alphabet {1e-157,1e-150,1,1e150}: the spectral densities themselves are representable in float64"],
 }
 KW = dict(olap=0.5, Jdes=4, Kdes=2, win="hann", scheduler="ltf")
 RAWK = ("XX", "YY", "XY", "M2", "S12", "S2", "f", "L", "K")
@@ -438,7 +438,10 @@ def _finite(shard):
     seen = set()
     for s in alln:
         x = s if n == 8 else np.concatenate([s, [1.0, -2.0]])
-        for pn, scale, order in itertools.product(PARTN, (1e-150, 1.0, 1e150), (-1, 0, 1, 2)):
+        # 1e-157: the mean squares (1e-314) are subnormal numbers - finite, and every ratio of them is representable
+        for pn, scale, order in itertools.product(PARTN, (1e-150, 1.0, 1e150, 1e-157), (-1, 0, 1, 2)):
+            if scale == 1e-157 and pn == "big":
+                continue   # a transfer function of 1e307 and more: the value itself is not representable
             r = _finite_case({"x": x.tolist(), "partner": pn, "scale": scale, "order": order})
             out["evals"] += r["evals"]
             out["nontrivial"] += r["nontrivial"]
@@ -447,7 +450,7 @@ def _finite(shard):
                     seen.add(f_["key"])
                     out["failures"].append(f_)
         if not out["samples"]:
-            out["samples"].append({"x": x.tolist(), "partners": list(PARTN), "scales": [1e-150, 1, 1e150]})
+            out["samples"].append({"x": x.tolist(), "partners": list(PARTN), "scales": [1e-150, 1, 1e150, 1e-157]})
     return out
 
 
